@@ -67,6 +67,12 @@ class Race(Family):
         out.append((prog(K, S, ("ctl", "disable"), J, K, ("ctl", "stop"), J, S, ("ctl", "restart"), J, S, ("ctl", "enable"), J, S), "combined"))
         out.append((prog(("arm", "worker:after_read"), K, ("wait", "worker:after_read"), ("ctl", "disable"), J, ("ctl", "stop"), J,
                          ("release", "worker:after_read"), S, ("ctl", "restart"), J, ("ctl", "enable"), J, S, K, S), "combined-held"))
+        # the kick descriptor of a started, enabled ring is sent again (the same eventfd): no kick before, between or
+        # after may be lost, with the worker free and with the worker held across the replacement
+        out.append((prog(K, S, ("ctl", "restart"), J, K, S, K, S, ("ctl", "restart"), J, K, S), "replace-kick"))
+        out.append((prog(("ctl", "restart"), J, K, K, S, K, S), "replace-kick"))
+        for hw in ("worker:after_epoll", "worker:after_read"):
+            out.append((prog(("arm", hw), K, ("wait", hw), ("ctl", "restart"), J, ("release", hw), S, K, S, K, S), f"{hw}:replace-kick"))
         if tier != "quick":
             out = out * 4
         return out
